@@ -61,6 +61,9 @@ func runC13(t *testing.T, c ReplCase) *kit.Result {
 		// read before the call returns (the read lock's release is a
 		// scheduling point), so samples of different tasks are not ordered.
 		checkReported := func(rn *replicaNode, last *uint64, when string) {
+			if rn.rep == nil {
+				return // Manager.Start has not returned yet: the replica object is not known to the harness
+			}
 			samples++
 			rep := rn.rep.GetLastAppliedSequence()
 			if kit.Verbose && rep != *last {
